@@ -99,6 +99,14 @@ def crowded_dipoles():
             dipole([0.97, 0.5, 0.5])]
 
 
+def crowded_dipoles_edge():
+    """The initially active dipole's centre is 8e-4 below the x-face of its cell; two dipoles (occupant + surplus) wait
+    in the next cell, one lies across the periodic face: the first events are cell-boundary events of a composite
+    object while a surplus unit exists."""
+    return [dipole([0.3075, 0.05, 0.05]), dipole([0.42, 0.08, 0.05], axis=1), dipole([0.45, 0.12, 0.08], axis=2),
+            dipole([0.97, 0.5, 0.5])]
+
+
 def water(o_pos, a=0.3, L=10.0):
     """One SPC/Fw-like molecule (H, O, H) with the oxygen at o_pos, in the plane z = const."""
     import math
@@ -209,6 +217,9 @@ def families(tier, horizon=25):
         scaled(J + "dipoles/cell_veto.ini", 4, start=crowded_dipoles(), horizon=horizon, name="dipoles/cell_veto+crowd4"),
         scaled(J + "dipoles/cell_bounded.ini", 4, start=crowded_dipoles(), horizon=horizon,
                name="dipoles/cell_bounded+crowd4"),
+        scaled(J + "dipoles/cell_veto.ini", 4, start=crowded_dipoles_edge(), horizon=12, name="dipoles/cell_veto+edge4"),
+        scaled(J + "dipoles/cell_bounded.ini", 4, start=crowded_dipoles_edge(), horizon=12,
+               name="dipoles/cell_bounded+edge4"),
         scaled(J + "dipoles/dipole_factors_inside_first.ini", 3, horizon=horizon),
         scaled(J + "dipoles/atom_factors.ini", 3, horizon=horizon),
         scaled(J + "water/coulomb_cell_veto_lj_cell_veto.ini", 3, horizon=horizon),
